@@ -84,6 +84,24 @@ class SpecMixin:
             return self.spec_call(env, e)
         raise Unsupported('spec expr %r' % (e,))
 
+    def seq_term(self, st, x):
+        """abstract sequence of a string/slice view; literals become explicit concatenations of their bytes"""
+        self.use_seq = True
+        if isinstance(x, StrV) and x.lit is not None:
+            if len(x.lit) == 0:
+                return sempty
+            t = sbyte(z3.IntVal(x.lit[-1]))
+            for c in reversed(x.lit[:-1]):
+                t = cat(sbyte(z3.IntVal(c)), t)
+            return t
+        parts = getattr(x, 'parts', None)
+        t = sl(x.arr, x.off, x.off + x.len)
+        for f in sl_facts(x.arr, x.off, x.off + x.len):
+            st.pc.append(f)
+        if parts is not None:
+            st.pc.append(t == cat(self.seq_term(st, parts[0]), self.seq_term(st, parts[1])))
+        return t
+
     def spec_binop(self, env, op, a, b):
         if op in ('==', '!='):
             r = self.equal(env.st, a, b)
@@ -237,9 +255,7 @@ class SpecMixin:
             self.use_seq = True
             x = self.sev(env, args[0])
             if isinstance(x, (StrV, SliceV)):
-                for f in sl_facts(x.arr, x.off, x.off + x.len):
-                    env.st.pc.append(f)
-                return SeqV(sl(x.arr, x.off, x.off + x.len))
+                return SeqV(self.seq_term(env.st, x))
             if isinstance(x, SeqV): return x
             raise Unsupported('seq of %r' % (x,))
         if name == 'cat':
@@ -281,6 +297,17 @@ class SpecMixin:
         if name == 'samearr':
             x, y = self.sev(env, args[0]), self.sev(env, args[1])
             return z3.And([a == b for a, b in zip(x.arrs, y.arrs)] + [x.off == y.off]) if isinstance(x, SliceV) else z3.And(x.arr == y.arr, x.off == y.off)
+        if name == 'global':     # global("pkg.Name"): current value of a package-level variable
+            key = ('global', args[0][1].decode())
+            if key not in env.st.ghost:
+                o = getattr(self, 'global_objs', {}).get(key[1])
+                if o is None:
+                    raise Unsupported('spec: global %s is not used by the function' % key[1])
+                return self.global_var(env.st, o)
+            return env.st.ghost[key]
+        if name == 'unboxint':
+            from .gocalls import unbox_int
+            return unbox_int(self.refof(self.sev(env, args[0])))
         if name == 'suffixof':   # suffixof(p, q): p is q[k:] for k = len(q)-len(p)
             x, y = self.sev(env, args[0]), self.sev(env, args[1])
             return z3.And(x.arr == y.arr, x.off >= y.off, x.off + x.len == y.off + y.len)
